@@ -38,6 +38,7 @@ type FuncContract struct {
 	Modifies    []Expr
 	ModSrc      []string
 	ModDeclared bool
+	NoInfer     bool // no inferred loop-frame candidates (big select loops: only local call-site obligations are wanted)
 	Safe        bool
 	Trusted     bool // contract assumed; body not verified
 	TrustReason string
@@ -99,7 +100,7 @@ type Contracts struct {
 }
 
 var headerKW = map[string]bool{"addressable": true, "ghostvar": true, "uf": true, "func": true, "interface": true, "extern": true, "model": true, "spec": true, "lemma": true, "axiom": true}
-var clauseKW = map[string]bool{"observe": true, "requires": true, "ensures": true, "modifies": true, "safe": true, "trusted": true, "loop": true, "at": true, "crash_invariant": true, "fresh": true}
+var clauseKW = map[string]bool{"noinference": true, "observe": true, "requires": true, "ensures": true, "modifies": true, "safe": true, "trusted": true, "loop": true, "at": true, "crash_invariant": true, "fresh": true}
 
 type rawItem struct {
 	line int
@@ -279,6 +280,8 @@ func parseContracts(text string) (c *Contracts, err error) {
 				cur.Modifies = append(cur.Modifies, parseExpr(part, it.line))
 				cur.ModSrc = append(cur.ModSrc, part)
 			}
+		case "noinference":
+			cur.NoInfer = true
 		case "safe":
 			cur.Safe = true
 		case "trusted":
